@@ -290,6 +290,23 @@ func runC04(c *Cfg) {
 	defer runC04Batch(c)
 	// flows with a retry budget of their own, nested: a failure that a later attempt of the flow recovers is not the
 	// run's outcome; one that no attempt recovers is, with the callback's own error
+	// very long runs (up to 22650 visits): a run in which no callback fails succeeds however long it is, and a callback
+	// failing on visit 18000 still ends the run with its own error
+	var ll []*scen.Scenario
+	for _, sc := range longLoopCases() {
+		ll = append(ll, sc)
+		if w := &sc.Nodes[0]; len(w.Visits) > 19000 {
+			v := sc.Clone()
+			v.Nodes[0].ErrKind = scen.EWrapped
+			v.Nodes[0].Visits[18000].PostErr = true
+			ll = append(ll, v)
+		}
+	}
+	parallel(c, len(ll), func(i int) {
+		judgeFor(c, "C04", "very-long-run", ll[i])
+		r.Count("very_long_run.cases", 1)
+		r.Nontrivial("ll:" + scenSig(ll[i]))
+	})
 	frc := flowRetryCases()
 	parallel(c, len(frc), func(i int) {
 		judgeFor(c, "C04", "flow-with-retries", frc[i])
